@@ -40,6 +40,10 @@ func (x *Exec) execInstr(st *State, in ssa.Instruction) error {
 				x.oblige(st, "nopanic", "nil-deref", tNot(tEq(base.T, intLit(0))), in.Pos(), "pointer is non-nil at field access", nil)
 			}
 			x.assume(st, tNot(tEq(base.T, intLit(0))))
+			if isOpaqueNamed(pt) {
+				x.setReg(in, &Val{K: VPath, Path: &Path{T: ft, Opaque: true}})
+				return nil
+			}
 			x.setReg(in, &Val{K: VPath, Path: &Path{Ref: base.T, RefT: pt, Sel: []int{in.Field}, T: ft}})
 		default:
 			x.unsupported("FieldAddr on value kind %d", base.K)
@@ -141,8 +145,11 @@ func (x *Exec) execInstr(st *State, in ssa.Instruction) error {
 		x.setReg(in, scalar(r, in.Type()))
 	case *ssa.MakeSlice:
 		if k, _ := classify(in.Type()); k == TScalar {
-			// []byte
-			x.setReg(in, x.havocVal(in.Type(), "bytes"))
+			// []byte: a fresh byte string of the requested length
+			bv := x.havocVal(in.Type(), "bytes")
+			x.assume(st, tEq(x.strLen(bv.T), x.val(st, in.Len).T))
+			x.freshBytes[bv.T.String()] = true
+			x.regs[in] = retype(bv, in.Type()) // not renamed: identity matters for the copy idiom
 			return nil
 		}
 		r := x.newRef(st, "slice")
@@ -252,6 +259,11 @@ func (x *Exec) execAlloc(st *State, in *ssa.Alloc) {
 		r := x.newRef(st, in.Comment)
 		x.storeObj(st, r, et, "", et, zeroVal(et))
 		x.setReg(in, scalar(r, in.Type()))
+		return
+	}
+	if _, isStruct := et.Underlying().(*types.Struct); in.Heap && isStruct && isOpaqueNamed(et) {
+		// heap object of an external (opaque) struct type: a fresh reference without modelled fields
+		x.setReg(in, scalar(x.newRef(st, in.Comment), in.Type()))
 		return
 	}
 	if at, isArr := et.Underlying().(*types.Array); isArr && !isByteArr(et) {
@@ -850,6 +862,11 @@ func (x *Exec) execNext(st *State, in *ssa.Next) {
 }
 
 func (x *Exec) checkGuarded(st *State, structT types.Type, field int, in ssa.Instruction) {
+	if fa, ok := in.(*ssa.FieldAddr); ok {
+		if al, ok := fa.X.(*ssa.Alloc); ok && al.Heap {
+			return // object allocated by this function and not yet published: no lock needed
+		}
+	}
 	n, ok := types.Unalias(structT).(*types.Named)
 	if !ok || n.Obj().Pkg() == nil {
 		return
